@@ -1,4 +1,454 @@
-/- Helper lemmas for `DepGraph::new`. -/
+/- Helper lemmas for `DepGraph::new`: the abstract post-order DFS (`visitNode`, `visitChildren`,
+`visitAll`, `visitDev`) over an arbitrary child function `nb`. -/
 import Vet.Spec.Demand
 namespace Vet
+namespace Topo
+
+/-! ### Fuel measure -/
+
+/-- number of nodes of the universe `U` not yet visited -/
+def unvisited (U vis : List Nat) : Nat := U.countP (fun u => !vis.contains u)
+
+theorem unvisited_mono {U vis vis' : List Nat} (h : ∀ x ∈ vis, x ∈ vis') :
+    unvisited U vis' ≤ unvisited U vis := by
+  unfold unvisited
+  apply List.countP_mono_left
+  intro x _ hx
+  simp at hx ⊢
+  exact fun hm => hx (h x hm)
+
+theorem unvisited_cons_lt {U vis : List Nat} {n : Nat} (hn : n ∈ U) (hv : n ∉ vis) :
+    unvisited U (n :: vis) < unvisited U vis := by
+  unfold unvisited
+  induction U with
+  | nil => simp at hn
+  | cons u us ih =>
+    simp only [List.countP_cons]
+    have hle : us.countP (fun x => !(n :: vis).contains x) ≤ us.countP (fun x => !vis.contains x) :=
+      unvisited_mono (U := us) (fun x hx => List.mem_cons_of_mem _ hx)
+    by_cases hu : u = n
+    · subst hu
+      simp [hv]
+      simp at hle
+      omega
+    · have hn' : n ∈ us := by
+        simp at hn; rcases hn with h | h
+        · exact absurd h.symm hu
+        · exact h
+      have ih' := ih hn'
+      by_cases hc : u ∈ vis
+      · simp [hc] at ih' ⊢; omega
+      · simp [hc, hu] at ih' ⊢; omega
+
+theorem unvisited_le (U vis : List Nat) : unvisited U vis ≤ U.length := by
+  unfold unvisited
+  exact List.countP_le_length
+
+/-! ### Unfolding lemmas -/
+
+theorem visitNode_zero (nb : Nat → List Nat) (st : VisitState) (idx : Nat) :
+    visitNode nb 0 st idx = .error .outOfFuel := rfl
+
+theorem visitNode_succ (nb : Nat → List Nat) (fuel : Nat) (st : VisitState) (idx : Nat) :
+    visitNode nb (fuel + 1) st idx =
+      if st.visited.contains idx then .ok st
+      else
+        match visitChildren (visitNode nb fuel) idx (nb idx)
+            { st with visited := idx :: st.visited } with
+        | .error e => .error e
+        | .ok s => .ok { s with topo := s.topo ++ [idx] } := rfl
+
+theorem visitChildren_nil (rec : VisitState → Nat → Except Panic VisitState) (parent : Nat)
+    (s : VisitState) : visitChildren rec parent [] s = .ok s := rfl
+
+theorem visitChildren_cons (rec : VisitState → Nat → Except Panic VisitState) (parent c : Nat)
+    (cs : List Nat) (s : VisitState) :
+    visitChildren rec parent (c :: cs) s =
+      match rec s c with
+      | .error e => .error e
+      | .ok s' => visitChildren rec parent cs { s' with redges := s'.redges ++ [(c, parent)] } := rfl
+
+/-! ### Contract 1: termination, visited/redges bookkeeping (no acyclicity needed) -/
+
+/-- What a (sequence of) visit(s) guarantees about `visited` and `redges`.
+`par`/`cs`: the loop's own `(c, par)` insertions for `c ∈ cs`. -/
+structure Ext (nb : Nat → List Nat) (n : Nat) (par : Nat) (cs : List Nat)
+    (st st' : VisitState) : Prop where
+  mono : ∀ x ∈ st.visited, x ∈ st'.visited
+  rmono : ∀ e ∈ st.redges, e ∈ st'.redges
+  /-- every node visited during the call is finished: all its edges are recorded -/
+  fin : ∀ x ∈ st'.visited, x ∉ st.visited → ∀ c ∈ nb x, (c, x) ∈ st'.redges
+  lt : ∀ x ∈ st'.visited, x ∈ st.visited ∨ x < n
+  snd : ∀ e ∈ st'.redges, e ∈ st.redges ∨ (e.2 ∈ st'.visited ∧ e.1 ∈ nb e.2) ∨ (e.2 = par ∧ e.1 ∈ cs)
+
+variable {nb : Nat → List Nat} {n : Nat}
+
+theorem Ext.refl (par : Nat) (st : VisitState) : Ext nb n par [] st st :=
+  ⟨fun _ h => h, fun _ h => h, fun _ h h' => absurd h h', fun _ h => Or.inl h, fun _ h => Or.inl h⟩
+
+theorem Ext.trans {par : Nat} {cs1 cs2 : List Nat} {a b c : VisitState}
+    (h1 : Ext nb n par cs1 a b) (h2 : Ext nb n par cs2 b c) : Ext nb n par (cs1 ++ cs2) a c := by
+  refine ⟨fun x hx => h2.mono x (h1.mono x hx), fun e he => h2.rmono e (h1.rmono e he), ?_, ?_, ?_⟩
+  · intro x hx hxa d hd
+    by_cases hb : x ∈ b.visited
+    · exact h2.rmono _ (h1.fin x hb hxa d hd)
+    · exact h2.fin x hx hb d hd
+  · intro x hx
+    rcases h2.lt x hx with h | h
+    · exact h1.lt x h
+    · exact Or.inr h
+  · intro e he
+    rcases h2.snd e he with h | h | h
+    · rcases h1.snd e h with h | h | h
+      · exact Or.inl h
+      · exact Or.inr (Or.inl ⟨h2.mono _ h.1, h.2⟩)
+      · exact Or.inr (Or.inr ⟨h.1, List.mem_append_left _ h.2⟩)
+    · exact Or.inr (Or.inl h)
+    · exact Or.inr (Or.inr ⟨h.1, List.mem_append_right _ h.2⟩)
+
+theorem Ext.reparent {par par' : Nat} {a b : VisitState} (h : Ext nb n par [] a b) :
+    Ext nb n par' [] a b := by
+  refine ⟨h.mono, h.rmono, h.fin, h.lt, ?_⟩
+  intro e he
+  rcases h.snd e he with h | h | h
+  · exact Or.inl h
+  · exact Or.inr (Or.inl h)
+  · exact absurd h.2 (List.not_mem_nil)
+
+/-- recording one `(c, par)` edge -/
+theorem Ext.push (par c : Nat) (s : VisitState) :
+    Ext nb n par [c] s { s with redges := s.redges ++ [(c, par)] } := by
+  refine ⟨fun _ h => h, fun e h => List.mem_append_left _ h, fun x h h' => absurd h h',
+    fun _ h => Or.inl h, ?_⟩
+  intro e he
+  simp only [List.mem_append, List.mem_singleton] at he
+  rcases he with h | h
+  · exact Or.inl h
+  · subst h; exact Or.inr (Or.inr ⟨rfl, by simp⟩)
+
+def Contract1 (nb : Nat → List Nat) (n fuel : Nat) : Prop :=
+  ∀ st idx, idx < n → unvisited (List.range n) st.visited < fuel →
+    ∃ st', visitNode nb fuel st idx = .ok st' ∧ Ext nb n 0 [] st st' ∧ idx ∈ st'.visited
+
+theorem children1 {fuel : Nat} (H : Contract1 nb n fuel) (parent : Nat) :
+    ∀ (cs : List Nat) (st : VisitState), (∀ c ∈ cs, c < n) →
+      unvisited (List.range n) st.visited < fuel →
+      ∃ st', visitChildren (visitNode nb fuel) parent cs st = .ok st' ∧
+        Ext nb n parent cs st st' ∧ (∀ c ∈ cs, (c, parent) ∈ st'.redges) ∧
+        (∀ c ∈ cs, c ∈ st'.visited) := by
+  intro cs
+  induction cs with
+  | nil =>
+    intro st _ _
+    exact ⟨st, rfl, Ext.refl _ _, by simp, by simp⟩
+  | cons c cs ih =>
+    intro st hlt hf
+    obtain ⟨s1, hs1, hext1, hc1⟩ := H st c (hlt c (by simp)) hf
+    have hf1 : unvisited (List.range n) s1.visited < fuel :=
+      Nat.lt_of_le_of_lt (unvisited_mono hext1.mono) hf
+    obtain ⟨s2, hs2, hext2, hr2, hv2⟩ :=
+      ih { s1 with redges := s1.redges ++ [(c, parent)] } (fun c' h => hlt c' (by simp [h])) hf1
+    refine ⟨s2, ?_, ?_, ?_, ?_⟩
+    · rw [visitChildren_cons, hs1]; exact hs2
+    · have := (hext1.reparent (par' := parent)).trans ((Ext.push parent c s1).trans hext2)
+      simpa using this
+    · intro c' hc'
+      simp only [List.mem_cons] at hc'
+      rcases hc' with rfl | hc'
+      · exact hext2.rmono _ (by simp)
+      · exact hr2 c' hc'
+    · intro c' hc'
+      simp only [List.mem_cons] at hc'
+      rcases hc' with rfl | hc'
+      · exact hext2.mono _ hc1
+      · exact hv2 c' hc'
+
+theorem contract1 (hU : ∀ a b, b ∈ nb a → b < n) : ∀ fuel, Contract1 nb n fuel := by
+  intro fuel
+  induction fuel with
+  | zero => intro st idx _ hf; exact absurd hf (Nat.not_lt_zero _)
+  | succ fuel ih =>
+    intro st idx hidx hf
+    rw [visitNode_succ]
+    split
+    · rename_i hvis
+      exact ⟨st, rfl, Ext.refl _ _, by simpa using hvis⟩
+    · rename_i hvis
+      have hvis' : idx ∉ st.visited := by simpa using hvis
+      have hf0 : unvisited (List.range n) (idx :: st.visited) < fuel := by
+        have := unvisited_cons_lt (U := List.range n) (by simpa using hidx) hvis'
+        omega
+      obtain ⟨s1, hs1, hext, hr, _⟩ := children1 ih idx (nb idx)
+        { st with visited := idx :: st.visited } (fun c hc => hU idx c hc) hf0
+      rw [hs1]
+      refine ⟨_, rfl, ⟨?_, ?_, ?_, ?_, ?_⟩, ?_⟩
+      · intro x hx; exact hext.mono x (List.mem_cons_of_mem _ hx)
+      · exact hext.rmono
+      · intro x hx hxs d hd
+        by_cases hxi : x = idx
+        · subst hxi; exact hr d hd
+        · exact hext.fin x hx (by simp [hxi, hxs]) d hd
+      · intro x hx
+        rcases hext.lt x hx with h | h
+        · simp only [List.mem_cons] at h
+          rcases h with rfl | h
+          · exact Or.inr hidx
+          · exact Or.inl h
+        · exact Or.inr h
+      · intro e he
+        rcases hext.snd e he with h | h | h
+        · exact Or.inl h
+        · exact Or.inr (Or.inl h)
+        · refine Or.inr (Or.inl ⟨?_, ?_⟩)
+          · rw [h.1]; exact hext.mono idx (by simp)
+          · rw [h.1]; exact h.2
+      · exact hext.mono idx (by simp)
+
+theorem visitAll_total {fuel : Nat} (H : Contract1 nb n fuel) :
+    ∀ (rs : List Nat) (st : VisitState), (∀ r ∈ rs, r < n) →
+      unvisited (List.range n) st.visited < fuel →
+      ∃ st', visitAll nb fuel rs st = .ok st' ∧ Ext nb n 0 [] st st' ∧
+        ∀ r ∈ rs, r ∈ st'.visited := by
+  intro rs
+  induction rs with
+  | nil => intro st _ _; exact ⟨st, rfl, Ext.refl _ _, by simp⟩
+  | cons r rs ih =>
+    intro st hlt hf
+    obtain ⟨s1, hs1, hext1, hr1⟩ := H st r (hlt r (by simp)) hf
+    have hf1 : unvisited (List.range n) s1.visited < fuel :=
+      Nat.lt_of_le_of_lt (unvisited_mono hext1.mono) hf
+    obtain ⟨s2, hs2, hext2, hv2⟩ := ih s1 (fun r' h => hlt r' (by simp [h])) hf1
+    refine ⟨s2, ?_, by simpa using hext1.trans hext2, ?_⟩
+    · simp only [visitAll, hs1]; exact hs2
+    · intro r' hr'
+      simp only [List.mem_cons] at hr'
+      rcases hr' with rfl | hr'
+      · exact hext2.mono _ hr1
+      · exact hv2 r' hr'
+
+theorem visitDev_total {fuel : Nat} (H : Contract1 nb n fuel) (dev : Nat → List Nat)
+    (hD : ∀ a b, b ∈ dev a → b < n) :
+    ∀ (ms : List Nat) (st : VisitState),
+      unvisited (List.range n) st.visited < fuel →
+      ∃ st', visitDev nb dev fuel ms st = .ok st' ∧ (∀ x ∈ st.visited, x ∈ st'.visited) ∧
+        (∀ x ∈ st'.visited, x ∈ st.visited ∨ x < n) := by
+  intro ms
+  induction ms with
+  | nil => intro st _; exact ⟨st, rfl, fun _ h => h, fun _ h => Or.inl h⟩
+  | cons m ms ih =>
+    intro st hf
+    obtain ⟨s1, hs1, hext1, _, _⟩ := children1 H m (dev m) st (fun c hc => hD m c hc) hf
+    have hf1 : unvisited (List.range n) s1.visited < fuel :=
+      Nat.lt_of_le_of_lt (unvisited_mono hext1.mono) hf
+    obtain ⟨s2, hs2, hm2, hl2⟩ := ih s1 hf1
+    refine ⟨s2, ?_, fun x hx => hm2 x (hext1.mono x hx), ?_⟩
+    · simp only [visitDev, hs1]; exact hs2
+    · intro x hx
+      rcases hl2 x hx with h | h
+      · exact hext1.lt x h
+      · exact Or.inr h
+
+/-! ### Contract 2: the post-order is topological (uses a rank decreasing along `nb`) -/
+
+/-- every child of a listed node is listed before it -/
+def Ordered (nb : Nat → List Nat) (l : List Nat) : Prop :=
+  ∀ pre i post, l = pre ++ i :: post → ∀ d ∈ nb i, d ∈ pre
+
+theorem Ordered.nil : Ordered nb [] := by
+  intro pre i post h; simp at h
+
+theorem Ordered.snoc {l : List Nat} {x : Nat} (h : Ordered nb l) (hx : ∀ c ∈ nb x, c ∈ l) :
+    Ordered nb (l ++ [x]) := by
+  intro pre i post heq d hd
+  rcases List.eq_nil_or_concat post with rfl | ⟨post', y, rfl⟩
+  · obtain ⟨h1, h2⟩ := List.append_inj' heq (by simp)
+    cases h2; subst h1; exact hx d hd
+  · have h' : l ++ [x] = (pre ++ i :: post') ++ [y] := by simp [heq]
+    obtain ⟨h1, _⟩ := List.append_inj' h' (by simp)
+    exact h pre i post' h1 d hd
+
+/-- invariant relating `visited`, `topo` and the ghost stack `S` -/
+structure Inv (nb : Nat → List Nat) (S : List Nat) (st : VisitState) : Prop where
+  nodup : st.topo.Nodup
+  ord : Ordered nb st.topo
+  split : ∀ x, x ∈ st.visited ↔ (x ∈ st.topo ∨ x ∈ S)
+  disj : ∀ x ∈ st.topo, x ∉ S
+
+theorem Inv.redges {S : List Nat} {st : VisitState} (h : Inv nb S st) (r : List (Nat × Nat)) :
+    Inv nb S { st with redges := r } := ⟨h.nodup, h.ord, h.split, h.disj⟩
+
+def Contract2 (nb : Nat → List Nat) (rank : Nat → Nat) (fuel : Nat) : Prop :=
+  ∀ st idx S st', Inv nb S st → (∀ s ∈ S, rank idx < rank s) →
+    visitNode nb fuel st idx = .ok st' →
+    Inv nb S st' ∧ idx ∈ st'.topo ∧ ∀ x ∈ st.topo, x ∈ st'.topo
+
+theorem children2 {rank : Nat → Nat} {fuel : Nat} (H : Contract2 nb rank fuel) (parent : Nat) :
+    ∀ (cs : List Nat) (st : VisitState) (S : List Nat) (st' : VisitState), Inv nb S st →
+      (∀ c ∈ cs, ∀ s ∈ S, rank c < rank s) →
+      visitChildren (visitNode nb fuel) parent cs st = .ok st' →
+      Inv nb S st' ∧ (∀ c ∈ cs, c ∈ st'.topo) ∧ ∀ x ∈ st.topo, x ∈ st'.topo := by
+  intro cs
+  induction cs with
+  | nil =>
+    intro st S st' inv _ h
+    rw [visitChildren_nil] at h
+    cases h
+    exact ⟨inv, by simp, fun _ h => h⟩
+  | cons c cs ih =>
+    intro st S st' inv hR h
+    rw [visitChildren_cons] at h
+    split at h
+    · cases h
+    · rename_i s1 hs1
+      obtain ⟨inv1, hc1, hm1⟩ := H st c S s1 inv (hR c (by simp)) hs1
+      obtain ⟨inv2, hc2, hm2⟩ := ih _ S st' (inv1.redges _)
+        (fun c' h => hR c' (by simp [h])) h
+      refine ⟨inv2, ?_, fun x hx => hm2 x (hm1 x hx)⟩
+      intro c' hc'
+      simp only [List.mem_cons] at hc'
+      rcases hc' with rfl | hc'
+      · exact hm2 _ hc1
+      · exact hc2 c' hc'
+
+theorem contract2 (rank : Nat → Nat) (hrank : ∀ a b, b ∈ nb a → rank b < rank a) :
+    ∀ fuel, Contract2 nb rank fuel := by
+  intro fuel
+  induction fuel with
+  | zero => intro st idx S st' _ _ h; rw [visitNode_zero] at h; cases h
+  | succ fuel ih =>
+    intro st idx S st' inv hS h
+    have hnS : idx ∉ S := fun hm => Nat.lt_irrefl _ (hS idx hm)
+    rw [visitNode_succ] at h
+    split at h
+    · rename_i hvis
+      cases h
+      have hvis' : idx ∈ st.visited := by simpa using hvis
+      refine ⟨inv, ?_, fun _ h => h⟩
+      rcases (inv.split idx).1 hvis' with h | h
+      · exact h
+      · exact absurd h hnS
+    · rename_i hvis
+      have hvis' : idx ∉ st.visited := by simpa using hvis
+      have inv0 : Inv nb (idx :: S) { st with visited := idx :: st.visited } := by
+        refine ⟨inv.nodup, inv.ord, ?_, ?_⟩
+        · intro x
+          have := inv.split x
+          simp only [List.mem_cons]
+          rw [this]
+          constructor
+          · rintro (h | h | h)
+            · exact Or.inr (Or.inl h)
+            · exact Or.inl h
+            · exact Or.inr (Or.inr h)
+          · rintro (h | h | h)
+            · exact Or.inr (Or.inl h)
+            · exact Or.inl h
+            · exact Or.inr (Or.inr h)
+        · intro x hx
+          simp only [List.mem_cons, not_or]
+          refine ⟨?_, inv.disj x hx⟩
+          rintro rfl
+          exact hvis' ((inv.split x).2 (Or.inl hx))
+      split at h
+      · cases h
+      · rename_i s1 hs1
+        cases h
+        obtain ⟨inv1, hmem, hm1⟩ := children2 ih idx (nb idx) _ (idx :: S) s1 inv0
+          (fun c hc s hs => by
+            simp only [List.mem_cons] at hs
+            rcases hs with rfl | hs
+            · exact hrank _ _ hc
+            · exact Nat.lt_trans (hrank _ _ hc) (hS s hs)) hs1
+        have hn1 : idx ∉ s1.topo := fun h => inv1.disj idx h (by simp)
+        refine ⟨⟨?_, ?_, ?_, ?_⟩, by simp, ?_⟩
+        · show (s1.topo ++ [idx]).Nodup
+          rw [List.nodup_append]
+          refine ⟨inv1.nodup, by simp, ?_⟩
+          intro a ha b hb
+          simp only [List.mem_singleton] at hb
+          subst hb
+          rintro rfl
+          exact hn1 ha
+        · exact inv1.ord.snoc hmem
+        · intro x
+          have := inv1.split x
+          show x ∈ s1.visited ↔ (x ∈ s1.topo ++ [idx] ∨ x ∈ S)
+          rw [this]
+          simp only [List.mem_append, List.mem_singleton]
+          simp only [List.mem_cons]
+          constructor
+          · rintro (h | h | h)
+            · exact Or.inl (Or.inl h)
+            · exact Or.inl (Or.inr h)
+            · exact Or.inr h
+          · rintro ((h | h) | h)
+            · exact Or.inl h
+            · exact Or.inr (Or.inl h)
+            · exact Or.inr (Or.inr h)
+        · intro x hx
+          have hx' : x ∈ s1.topo ++ [idx] := hx
+          simp only [List.mem_append, List.mem_singleton] at hx'
+          rcases hx' with hx' | rfl
+          · have := inv1.disj x hx'
+            simp only [List.mem_cons, not_or] at this
+            exact this.2
+          · exact hnS
+        · intro x hx
+          show x ∈ s1.topo ++ [idx]
+          exact List.mem_append_left _ (hm1 x hx)
+
+theorem visitAll_inv {rank : Nat → Nat} {fuel : Nat} (H : Contract2 nb rank fuel) :
+    ∀ (rs : List Nat) (st st' : VisitState), Inv nb [] st →
+      visitAll nb fuel rs st = .ok st' →
+      Inv nb [] st' ∧ (∀ r ∈ rs, r ∈ st'.topo) ∧ ∀ x ∈ st.topo, x ∈ st'.topo := by
+  intro rs
+  induction rs with
+  | nil =>
+    intro st st' inv h
+    simp only [visitAll] at h
+    cases h
+    exact ⟨inv, by simp, fun _ h => h⟩
+  | cons r rs ih =>
+    intro st st' inv h
+    simp only [visitAll] at h
+    split at h
+    · cases h
+    · rename_i s1 hs1
+      obtain ⟨inv1, hr1, hm1⟩ := H st r [] s1 inv (by simp) hs1
+      obtain ⟨inv2, hr2, hm2⟩ := ih s1 st' inv1 h
+      refine ⟨inv2, ?_, fun x hx => hm2 x (hm1 x hx)⟩
+      intro r' hr'
+      simp only [List.mem_cons] at hr'
+      rcases hr' with rfl | hr'
+      · exact hm2 _ hr1
+      · exact hr2 r' hr'
+
+theorem visitDev_inv {rank : Nat → Nat} {fuel : Nat} (H : Contract2 nb rank fuel)
+    (dev : Nat → List Nat) :
+    ∀ (ms : List Nat) (st st' : VisitState), Inv nb [] st →
+      visitDev nb dev fuel ms st = .ok st' →
+      Inv nb [] st' ∧ (∀ m ∈ ms, ∀ d ∈ dev m, d ∈ st'.topo) ∧ ∀ x ∈ st.topo, x ∈ st'.topo := by
+  intro ms
+  induction ms with
+  | nil =>
+    intro st st' inv h
+    simp only [visitDev] at h
+    cases h
+    exact ⟨inv, by simp, fun _ h => h⟩
+  | cons m ms ih =>
+    intro st st' inv h
+    simp only [visitDev] at h
+    split at h
+    · cases h
+    · rename_i s1 hs1
+      obtain ⟨inv1, hr1, hm1⟩ := children2 H m (dev m) st [] s1 inv (by simp) hs1
+      obtain ⟨inv2, hr2, hm2⟩ := ih s1 st' inv1 h
+      refine ⟨inv2, ?_, fun x hx => hm2 x (hm1 x hx)⟩
+      intro m' hm' d hd
+      simp only [List.mem_cons] at hm'
+      rcases hm' with rfl | hm'
+      · exact hm2 _ (hr1 d hd)
+      · exact hr2 m' hm' d hd
+
+end Topo
 end Vet
